@@ -76,7 +76,9 @@ pub fn stub(from: &str, tos: &str, msg: &str) -> String {
     let a = AsyncStubTransport::new_ok();
     let (r2, alog) = rt().block_on(async { let r = a.send_raw(&env, &m).await.is_ok(); (r, a.messages().await) });
     let e = StubTransport::new_error();
-    let r3 = e.send_raw(&env, &m).is_err() && e.messages().len() == 1;
+    let r3 = e.send_raw(&env, &m).is_err() && e.messages().len() == 1 && e.messages()[0].0 == env && e.messages()[0].1 == log[0].1;
+    let ae = AsyncStubTransport::new_error();
+    let r3 = r3 && rt().block_on(async { let r = ae.clone().send_raw(&env, &m).await.is_err(); let l = ae.messages().await; r && l.len() == 1 && l[0].0 == env && l[0].1 == log[0].1 });
     format!("ok\t{}\t{}\t{}\t{}\t{}\t{}", r1 as u8, env_s(&log[0].0), hex(log[0].1.as_bytes()), r2 as u8, (alog.len() == 1 && alog[0].0 == log[0].0 && alog[0].1 == log[0].1) as u8, r3 as u8)
 }
 
